@@ -591,6 +591,61 @@ def _slice_models(ex, st, fr, c, last, args):
 
 
 def _tls_models(ex, st, fr, c, last, args):
+    """storage model read off the MIR: a static reached through LocalKey::with whose accessor takes `&/*tls*/ STATIC` is one
+    lazily initialised cell per thread (current thread = st.tags['thread']); anything else is not modelled (fail closed)"""
+    E = _E()
+    if re.match(r"^(std::thread::)?LocalKey::<.*>::new$", c):
+        _use("std::thread::LocalKey::new (records the accessor)")
+        a = args[0]
+        return E.Opaque("LocalKey", a)
+    m = re.match(r"^(?:std::thread::)?LocalKey::<.*?>::with::<.*?(\{closure@[^}]*\}).*>$", c)
+    if m:
+        key = _deref_all(ex, st, args[0])
+        if not (isinstance(key, E.Opaque) and key.tag == "LocalKey"):
+            return NotImplemented
+        acc = key.payload            # the accessor closure value: Agg('closure:...')
+        accf = None
+        if isinstance(acc, E.Agg) and acc.kind.startswith("closure:"):
+            accf = ex.prog.closures.get(acc.kind[8:])
+        if accf is None:
+            # accessor given as a const path: find `...::{constant#0}::{closure#0}`
+            cands = [f for f in ex.prog.funcs if f.kind == "fn" and "{constant#0}::{closure#0}" in f.name]
+            accf = cands[0] if len(cands) == 1 else None
+        if accf is None:
+            return NotImplemented
+        body = accf.text
+        mt = re.search(r"&/\*tls\*/ ([\w:{}#]+)", body)
+        mi = re.search(r"get_or_init::<.*>\(.*?, (\w+)\)", body)
+        if not mt or not mi:
+            raise E.Unsupported("storage behind LocalKey is not a #[thread_local] static with lazy init: cannot model")
+        _use("LocalKey::with over `&/*tls*/ static`: one lazily initialised cell per thread (std's thread_local! contract)")
+        thread = st.tags.get("thread", 0)
+        cell = ("tlcell", mt.group(1), thread)
+        if cell not in st.heap:
+            initf = [f for f in ex.prog.by_last.get(mi.group(1), [])]
+            if len(initf) != 1:
+                return NotImplemented
+            outs = ex_call_local(ex, st, initf[0], [], fr)
+            if len(outs) != 1 or outs[0][2].kind != "return":
+                return NotImplemented
+            st.heap[cell] = outs[0][2].value
+            st.obs.append(("tls-init", cell, outs[0][2].value))
+        clo = ex.prog.closures.get(norm_type(m.group(1)))
+        if clo is None:
+            return NotImplemented
+        st.obs.append(("tls-access", cell))
+        return E._Enter(clo, [args[1], E.RefV(box=cell)])
+    if re.match(r"^(std::cell::)?RefCell::<.*>::new$", c):
+        _use("RefCell::new (cell content)")
+        return args[0]
+    if re.match(r"^(std::cell::)?RefCell::<.*>::(borrow|borrow_mut)$", c):
+        _use("RefCell::borrow / borrow_mut (no re-entrant borrows in the analysed code)")
+        return args[0]
+    if re.match(r"^<(Ref|RefMut)<.*> as (Deref|DerefMut)>::(deref|deref_mut)$", c):
+        _use("Ref/RefMut deref")
+        v = args[0]
+        inner = ex.read_ref(st, v)
+        return inner if isinstance(inner, E.RefV) else v
     return NotImplemented
 
 
